@@ -87,7 +87,7 @@ theorem exits_enter_evs (cur : Label) (ch : List Label) (f : Label → TState) :
   rw [exits_append, exits_append, exits_discover]; rfl
 
 theorem trStep_pinv {c : Circuit} {ab : Bool} {next : Label → List Label} {r : Label → Nat}
-    (hr : ∀ l, ∀ x ∈ next l, r x < r l) {s s' : TrSt}
+    {s s' : TrSt} (hr : ∀ l ∈ s.queue, ∀ x ∈ next l, r x < r l)
     (dinv : DInv s) (inv : PInv next r s) (hs : trStep c false ab next s = .next s') : PInv next r s' := by
   unfold trStep at hs
   simp only [Bool.false_eq_true, if_false] at hs
@@ -95,6 +95,7 @@ theorem trStep_pinv {c : Circuit} {ab : Bool} {next : Label → List Label} {r :
   | none => simp [htop] at hs
   | some cur =>
     have hq : s.queue = s.queue.dropLast ++ [cur] := getLast?_split htop
+    have hr := hr cur (List.mem_of_getLast? htop)
     simp only [htop] at hs
     split at hs
     · cases hs
@@ -123,7 +124,7 @@ theorem trStep_pinv {c : Circuit} {ab : Bool} {next : Label → List Label} {r :
                 rw [← hsplit]; conv => rhs; rw [hq]; simp
               obtain ⟨_, e2⟩ := last_occ_unique e hcp hup
               rw [← e2] at hx
-              exact hr u x (hpushed x hx).1
+              exact hr x (hpushed x hx).1
             · have hu' : s.st u = .ent := by simpa [setSt, huc] using hu
               -- `u` is not among the pushed (they are unvisited), so the split is inside the old queue
               have hunp : u ∉ (next cur).filter (fun x => setSt s.st cur .ent x = .unv) := by
@@ -142,7 +143,7 @@ theorem trStep_pinv {c : Circuit} {ab : Bool} {next : Label → List Label} {r :
               have hcb : cur ∈ b := mem_after_of_last (by rw [← eab]; exact htop) huc
               rcases List.mem_append.mp hx with hx | hx
               · exact hold x hx
-              · exact Nat.lt_trans (hr cur x (hpushed x hx).1) (hold cur hcb)
+              · exact Nat.lt_trans (hr x (hpushed x hx).1) (hold cur hcb)
           · intro u hu x hx hxu
             simp only at hu hxu ⊢
             have hxc : x ≠ cur := by intro e; subst e; simp [setSt] at hxu
@@ -179,11 +180,11 @@ theorem trStep_pinv {c : Circuit} {ab : Bool} {next : Label → List Label} {r :
             rw [← e2] at hxp; cases hxp
           | ent =>
             exfalso
-            have hxc : x ≠ cur := by intro e; subst e; exact Nat.lt_irrefl _ (hr x x hx)
+            have hxc : x ≠ cur := by intro e; subst e; exact Nat.lt_irrefl _ (hr x hx)
             obtain ⟨a, b, eab, hxb⟩ := last_split (dinv.entQ x hsx)
             have hcb : cur ∈ b := mem_after_of_last (by rw [← eab]; exact htop) hxc
             have := inv.above a x b eab hxb hsx cur hcb
-            exact Nat.lt_irrefl _ (Nat.lt_trans this (hr cur x hx))
+            exact Nat.lt_irrefl _ (Nat.lt_trans this (hr x hx))
         refine ⟨?_, ?_, ?_⟩
         · intro pre u post hsplit hup hu x hx
           simp only at hsplit hu
@@ -264,25 +265,32 @@ theorem trStep_pinv {c : Circuit} {ab : Bool} {next : Label → List Label} {r :
             · exact h
             · simp only [List.mem_singleton] at h; exact absurd h hxc
 
-theorem trLoop_pinv {c : Circuit} {ab : Bool} {next : Label → List Label} {r : Label → Nat}
-    (hr : ∀ l, ∀ x ∈ next l, r x < r l) :
-    ∀ fuel (s s' : TrSt), DInv s → PInv next r s → trLoop c false ab next fuel s = .ok s' → PInv next r s'
-  | 0, s, s', _, _, h => by simp [trLoop] at h
-  | fuel+1, s, s', dinv, inv, h => by
+theorem trLoop_pinv {c : Circuit} {ab : Bool} {next : Label → List Label} {start : List Label} {r : Label → Nat}
+    (hr : ∀ l, Reach next start l → ∀ x ∈ next l, r x < r l) :
+    ∀ fuel (s s' : TrSt), TInv next start s → DInv s → PInv next r s →
+      trLoop c false ab next fuel s = .ok s' → PInv next r s'
+  | 0, s, s', _, _, _, h => by simp [trLoop] at h
+  | fuel+1, s, s', tinv, dinv, inv, h => by
     unfold trLoop at h
     cases hs : trStep c false ab next s with
     | finished => simp only [hs, Except.ok.injEq] at h; subst h; exact inv
     | error e => simp [hs] at h
     | next s1 =>
       simp only [hs] at h
-      exact trLoop_pinv hr fuel s1 s' (trStep_dinv dinv hs) (trStep_pinv hr dinv inv hs) h
+      exact trLoop_pinv hr fuel s1 s' (trStep_inv tinv hs) (trStep_dinv dinv hs)
+        (trStep_pinv (fun l hl => hr l (tinv.reachQ l hl)) dinv inv hs) h
+
+theorem tinv_init (next : Label → List Label) (q0 : List Label) : TInv next q0 ⟨q0, fun _ => .unv, []⟩ :=
+  ⟨by intro l hl; exact absurd rfl hl, fun l hl => .base hl, by intro u hu; exact absurd rfl hu,
+    fun l hl => Or.inr hl, by intro l; simp [yields], by simp [yields]⟩
 
 /-- **DFS exits are a post-order**: on an acyclic successor relation (one with a rank that strictly
 decreases along it), whenever the depth-first traversal returns, every gate is handed to the exit hook
 after all of its successors -/
 theorem dfs_postorder {c : Circuit} (inverse : Bool) (start : Option (List Label)) (tsu ab : Bool)
     {r : Label → Nat}
-    (hr : ∀ l, ∀ x ∈ (if inverse then c.usersOf else c.opsOf) l, r x < r l)
+    (hr : ∀ l, Reach (if inverse then c.usersOf else c.opsOf) (start.getD (if inverse then c.inputs else c.outputs)) l →
+      ∀ x ∈ (if inverse then c.usersOf else c.opsOf) l, r x < r l)
     {log : List Ev} (h : traverse c false inverse start tsu ab = .ok log) :
     ∀ e1 l e2, exits log = e1 ++ l :: e2 → ∀ x ∈ (if inverse then c.usersOf else c.opsOf) l, x ∈ e1 := by
   unfold traverse at h
@@ -303,7 +311,7 @@ theorem dfs_postorder {c : Circuit} (inverse : Bool) (start : Option (List Label
           ⟨start.getD (if inverse then c.inputs else c.outputs), fun _ => .unv, []⟩ :=
         ⟨fun _ u _ _ _ hu => (by cases hu), fun u hu => (by cases hu),
          fun e1 l e2 he => (by simp [exits] at he)⟩
-      have pinv := trLoop_pinv hr _ _ _ dinv0 pinv0 hl
+      have pinv := trLoop_pinv hr _ _ _ (tinv_init _ _) dinv0 pinv0 hl
       have hfin : ∀ (L : List Label) (lg : List Ev),
           lg = s.log ++ (L.filter (fun l => s.st l = .unv)).map Ev.unvisited ++ [Ev.done] →
           ∀ e1 l e2, exits lg = e1 ++ l :: e2 → ∀ x ∈ (if inverse then c.usersOf else c.opsOf) l, x ∈ e1 := by
@@ -342,7 +350,7 @@ theorem dfs_operands_first {c : Circuit} (hnd : c.labels.Nodup)
     (h : traverse c false false start tsu ab = .ok log) :
     ∀ e1 l e2, exits log = e1 ++ l :: e2 → ∀ x ∈ c.opsOf l, x ∈ e1 := by
   obtain ⟨r, hr⟩ := opsOf_rank hnd hrank
-  have := dfs_postorder (c := c) false start tsu ab (r := r) (by simpa using hr) h
+  have := dfs_postorder (c := c) false start tsu ab (r := r) (by intro l _; simpa using hr l) h
   simpa using this
 
 /-- the users relation of a well-formed circuit has a rank too -/
@@ -368,7 +376,7 @@ theorem dfs_users_first {c : Circuit} (hw : WFU c)
     (h : traverse c false true start tsu ab = .ok log) :
     ∀ e1 l e2, exits log = e1 ++ l :: e2 → ∀ x ∈ c.usersOf l, x ∈ e1 := by
   obtain ⟨r, hr⟩ := usersOf_rank hw
-  have := dfs_postorder (c := c) true start tsu ab (r := r) (by simpa using hr) h
+  have := dfs_postorder (c := c) true start tsu ab (r := r) (by intro l _; simpa using hr l) h
   simpa using this
 
 /-! ## enter before exit -/
